@@ -139,4 +139,25 @@ func VerifC16_Seqno() {
 	vAssert(x != y && x != z && y != z, "two messages sent on one channel got the same sequence number")
 }
 
+// A message still waiting in the receiver's queue when its context is
+// cancelled must not reach the receiver afterwards.
+func VerifC16_QueuedThenCancelled() {
+	c := &vChan{}
+	ctx, cancel := context.WithCancel(context.Background())
+	handled := 0
+	c.Recv(ctx, func(m net.Message) { handled++ })
+	c.messageHandlersMutex.Lock()
+	mh := c.messageHandlers[0]
+	c.messageHandlersMutex.Unlock()
+	c.deliver(vDraw())
+	cancel()
+	stillQueued := len(mh.channel) == 1
+	vQuiesce()
+	vReach("cancelled")
+	if stillQueued {
+		vReach("queued-at-cancel")
+		vAssert(handled == 0, "a message still queued when the receiver's context was cancelled reached the receiver afterwards")
+	}
+}
+
 type vChan = localChannel
